@@ -221,7 +221,9 @@ func c17Kind[K any](res *ev.Result, unit string, k *kinds.Kind[K], seed uint64, 
 	if ok && k.Fan != nil {
 		// dense growth then removal: many 256-way nodes are built and retired; what stays
 		// alive afterwards must not depend on that peak
-		before := liveHeap()
+		// all harness-side data (family tables, identity set, reference, oracle caches) is
+		// built BEFORE the first reading and left untouched until after the last one:
+		// only the tree changes inside the measured window
 		var fams [][]K
 		total := 0
 		for f := 0; f < 40; f++ {
@@ -236,22 +238,31 @@ func c17Kind[K any](res *ev.Result, unit string, k *kinds.Kind[K], seed uint64, 
 				}
 				seen[k.ID(c)] = true
 				scratchModel.Put(c, 0)
-				t.Insert(k.Clone(c), 1)
-				kept = append(kept, c)
+				kept = append(kept, k.Clone(c))
 			}
 			fams = append(fams, kept)
 			total += len(kept)
+		}
+		before := liveHeap()
+		for _, fam := range fams {
+			for _, c := range fam {
+				t.Insert(k.Clone(c), 1)
+			}
 		}
 		peak := liveHeap()
 		for _, fam := range fams {
 			for _, c := range fam {
 				t.Delete(c)
+			}
+		}
+		after := liveHeap()
+		for _, fam := range fams {
+			for _, c := range fam {
 				scratchModel.Del(c)
 				delete(seen, k.ID(c))
 			}
 		}
-		fams = nil
-		after := liveHeap()
+		runtime.KeepAlive(fams)
 		res.Evaluations += int64(2 * total)
 		res.Count("ops_dense_grow_then_remove", int64(2*total))
 		res.Max("max_heap_delta_bytes_dense_grow_then_remove", int64(after)-int64(before))
